@@ -78,6 +78,56 @@ fn appended_rows(dom: &[Cell], nth: usize) -> Vec<(i64, Cell)> {
     vec![(b, dom[(nth + 1) % 5].clone()), (b + 1, Cell::Null), (b + 2, dom[(nth + 4) % 5].clone())]
 }
 
+/// high-cardinality family: ~6000 distinct int32 values (every 10th twice) and 20 NULL rows in two
+/// fragments: the bitmap index file spans several pages, the NULL key may sit anywhere in it
+pub(crate) fn highcard_fam() -> ColFam {
+    ColFam { label: "highcard", dt: DataType::Int32, dom: vec![Cell::I(-20000), Cell::I(-19993), Cell::I(1000), Cell::I(21986), Cell::I(21993)], extra_lits: vec![Cell::I(3)], cross_lits: vec![] }
+}
+
+fn highcard_rows() -> Vec<Vec<(i64, Cell)>> {
+    let mut rows = vec![];
+    let mut uid = 0i64;
+    for i in 0..6000i64 {
+        let v = Cell::I(i * 7 - 20000);
+        rows.push((uid, v.clone()));
+        uid += 1;
+        if i % 10 == 0 {
+            rows.push((uid, v));
+            uid += 1;
+        }
+        if i % 300 == 150 {
+            rows.push((uid, Cell::Null));
+            uid += 1;
+        }
+    }
+    let cut = rows.len() / 2;
+    vec![rows[..cut].to_vec(), rows[cut..].to_vec()]
+}
+
+fn highcard_appended(nth: usize) -> Vec<(i64, Cell)> {
+    let b = 100_000 + 100 * nth as i64;
+    vec![(b, Cell::I(1000)), (b + 1, Cell::Null), (b + 2, Cell::I(50_001 + nth as i64)), (b + 3, Cell::Null), (b + 4, Cell::I(-20000))]
+}
+
+fn highcard_preds() -> Vec<Q> {
+    let c = || col("c");
+    let lit = |v: i64| Expr::Lit(Cell::I(v));
+    let ps = vec![
+        Pred::IsNull(c()),
+        Pred::IsNotNull(c()),
+        Pred::Cmp(c(), CmpOp::Eq, lit(1000)),
+        Pred::Cmp(c(), CmpOp::Eq, lit(-20000)),
+        Pred::Cmp(c(), CmpOp::Eq, lit(21993)),
+        Pred::Cmp(c(), CmpOp::Eq, lit(3)),
+        Pred::In(c(), vec![Cell::I(-19993), Cell::I(1000), Cell::I(3), Cell::I(50_001)]),
+        Pred::And(bx(Pred::IsNull(c())), bx(Pred::Cmp(col("uid"), CmpOp::Lt, lit(3000)))),
+        Pred::Or(bx(Pred::IsNull(c())), bx(Pred::Cmp(c(), CmpOp::Eq, lit(1000)))),
+        Pred::Between(c(), Cell::I(1000), Cell::I(1000)),
+        Pred::Between(c(), Cell::I(-20000), Cell::I(-19900)),
+    ];
+    ps.into_iter().map(|p| Q { sql: typed_sql(&p, "c", &DataType::Int32), pred: Some(p), lpred: None, model_ok: true }).collect()
+}
+
 // ------------------------------------------------------------------------------------------------
 // histories
 
@@ -147,11 +197,13 @@ pub(crate) fn parse_index(label: &str) -> (String, Option<String>, bool) {
     (kind, params, stable)
 }
 
-async fn build_state(dt: &DataType, dom: &[Cell], index: &str, history: &[HOp]) -> Result<State, String> {
+async fn build_state(fam: &ColFam, index: &str, history: &[HOp]) -> Result<State, String> {
+    let (dt, dom) = (&fam.dt, &fam.dom[..]);
+    let hc = fam.label == "highcard";
     let (kind, params, stable) = parse_index(index);
     let env = Env::new();
     let cols = vec![("uid".to_string(), DataType::Int32), ("c".to_string(), dt.clone())];
-    let base = base_rows(dom);
+    let base = if hc { highcard_rows() } else { base_rows(dom) };
     let tbl = Tbl {
         cols: cols.clone(),
         frags: base.iter().map(|f| f.iter().map(|(u, c)| vec![Cell::I(*u), c.clone()]).collect()).collect(),
@@ -162,7 +214,7 @@ async fn build_state(dt: &DataType, dom: &[Cell], index: &str, history: &[HOp]) 
     for op in history {
         match op {
             HOp::Append => {
-                let rows = appended_rows(dom, st.appends);
+                let rows = if hc { highcard_appended(st.appends) } else { appended_rows(dom, st.appends) };
                 st.appends += 1;
                 let r: Vec<Row> = rows.iter().map(|(u, c)| vec![Cell::I(*u), c.clone()]).collect();
                 ds = append_rows(&st.env, URI, &cols, &r).await.map_err(|e| format!("append: {e}"))?;
@@ -272,8 +324,18 @@ fn scalar_preds(fam: &ColFam, quick: bool) -> Vec<Q> {
             }
         }
         let d = &fam.dom;
-        for (lo, hi) in [(1usize, 3usize), (0, 4), (3, 1), (2, 2)] {
+        for (lo, hi) in [(1usize, 3usize), (0, 4), (3, 1), (1, 1), (2, 2), (3, 3)] {
             atoms.push((Pred::Between(c(), d[lo].clone(), d[hi].clone()), true));
+        }
+        // ranges with equal inclusive bounds written as a conjunction (one value selected)
+        for v in [1usize, 2, 3] {
+            atoms.push((
+                Pred::And(
+                    bx(Pred::Cmp(c(), CmpOp::Ge, Expr::Lit(d[v].clone()))),
+                    bx(Pred::Cmp(c(), CmpOp::Le, Expr::Lit(d[v].clone()))),
+                ),
+                true,
+            ));
         }
         atoms.push((Pred::In(c(), vec![d[1].clone()]), true));
         atoms.push((Pred::In(c(), vec![d[0].clone(), d[3].clone(), fam.extra_lits[0].clone()]), true));
@@ -469,6 +531,14 @@ fn model_uids(model: &[(i64, Cell)], q: &Q) -> Vec<i64> {
     v
 }
 
+fn short_ids(v: &[i64]) -> String {
+    if v.len() <= 24 {
+        format!("{v:?}")
+    } else {
+        format!("[{} ids: {:?} ...]", v.len(), &v[..12])
+    }
+}
+
 fn diff(a: &[i64], b: &[i64]) -> (Vec<i64>, Vec<i64>) {
     (a.iter().filter(|x| !b.contains(x)).cloned().collect(), b.iter().filter(|x| !a.contains(x)).cloned().collect())
 }
@@ -484,8 +554,8 @@ pub(crate) fn hist_label_pub(h: &[HOp]) -> String {
     hist_label(h)
 }
 
-pub(crate) async fn build_state_pub(dt: &DataType, dom: &[Cell], index: &str, history: &[HOp]) -> Result<State, String> {
-    build_state(dt, dom, index, history).await
+pub(crate) async fn build_state_pub(fam: &ColFam, index: &str, history: &[HOp]) -> Result<State, String> {
+    build_state(fam, index, history).await
 }
 
 fn hist_label(h: &[HOp]) -> String {
@@ -549,7 +619,7 @@ async fn check_pred(ds: &Dataset, st: &State, fam: &str, index: &str, history: &
         t.viol.push(Violation::new(
             "index-vs-scan",
             &dk,
-            format!("{fam} {index} after {history:?}: filter {} -> uids {with:?} with index, {without:?} without; model {want:?}; table {:?}", q.sql, st.model.iter().map(|(u, c)| format!("{u}:{}", show(&[vec![c.clone()]]))).collect::<Vec<_>>()),
+            format!("{fam} {index} after {history:?}: filter {} -> uids {} with index, {} without; model {}; table {:?}", q.sql, short_ids(&with), short_ids(&without), short_ids(&want), st.model.iter().take(16).map(|(u, c)| format!("{u}:{}", show(&[vec![c.clone()]]))).collect::<Vec<_>>()),
             case.clone(),
         ));
     } else {
@@ -650,12 +720,13 @@ fn run_item(fam: &ColFam, index: &str, history: &[HOp], quick: bool, budget: &Bu
     let mut t = Tally { cov: Cov::new(), viol: vec![], rejected: BTreeMap::new(), index_used: 0 };
     let kind = parse_index(index).0;
     let qs = match kind.as_str() {
+        _ if fam.label == "highcard" => highcard_preds(),
         "labellist" => label_preds(),
         "ngram" => ngram_preds(),
         _ => scalar_preds(fam, quick),
     };
     let r = run_catch(async {
-        let st = build_state(&fam.dt, &fam.dom, index, history).await?;
+        let st = build_state(fam, index, history).await?;
         let ds = st.env.open(URI).await.map_err(|e| format!("open: {e}"))?;
         // vacuity guard: the plan of an indexed predicate must mention the index
         let probe = match kind.as_str() {
@@ -704,7 +775,7 @@ pub(crate) fn replay(art: &Value) -> Outcome {
     let mut t = Tally { cov: Cov::new(), viol: vec![], rejected: BTreeMap::new(), index_used: 0 };
     let q = Q { sql: case.filter.clone(), pred: case.pred.clone(), lpred: case.lpred.clone(), model_ok: case.pred.is_some() };
     let r = run_catch(async {
-        let st = build_state(&fam.dt, &fam.dom, &case.index, &case.history).await?;
+        let st = build_state(&fam, &case.index, &case.history).await?;
         let ds = st.env.open(URI).await.map_err(|e| format!("open: {e}"))?;
         check_pred(&ds, &st, fam.label, &case.index, &case.history, &q, &mut t).await;
         Ok::<(), String>(())
@@ -732,12 +803,15 @@ pub(crate) struct Plan {
     pub deep_fams: Vec<&'static str>,
     pub rule: &'static str,
     pub quick_budget_s: f64,
+    /// explicit (family, index, history) items run first (not multiplied with `histories`)
+    pub extra_items: Vec<(ColFam, String, Vec<HOp>)>,
 }
 
 pub(crate) fn fam_by_label(l: &str) -> ColFam {
     match l {
         "tags" => tags_fam(),
         "text" => text_fam(),
+        "highcard" => highcard_fam(),
         _ => fams().into_iter().find(|f| f.label == l).unwrap_or_else(|| vcore::machinery_error("unknown family")),
     }
 }
@@ -803,6 +877,17 @@ pub fn run(ctx: &Ctx) -> Outcome {
         histories: hs,
         deep_fams: vec!["int32", "utf8", "tags"],
         quick_budget_s: 40.0,
+        // the position of the NULL key inside the bitmap index file follows a HashMap iteration order:
+        // the same table is built and indexed several times
+        extra_items: {
+            let mut v = vec![];
+            for rep in 0..ctx.tier.pick(5, 8) {
+                let h = if rep % 2 == 0 { vec![] } else { vec![HOp::Append, HOp::Optimize] };
+                v.push((highcard_fam(), "bitmap".to_string(), h));
+            }
+            v.push((highcard_fam(), "btree".to_string(), vec![HOp::Append, HOp::Optimize]));
+            v
+        },
         rule: "items = (column family, index kind, history); per item every predicate of the family (6 comparisons x domain/boundary/cross-type literals, BETWEEN, IN, IS [NOT] NULL, IS TRUE/FALSE, NOT, AND/OR pairs incl. an unindexed column; array_has_any/all/contains for label_list) is scanned with and without the index and counted. non-trivial = the model selects some but not all rows",
     };
     let mut out = run_plan(ctx, plan);
@@ -816,7 +901,7 @@ pub(crate) fn run_plan(ctx: &Ctx, plan: Plan) -> Outcome {
     let mut out = Outcome::new("exploration");
     let hs = plan.histories.clone();
     let combos = plan.combos.clone();
-    let mut items: Vec<(ColFam, String, Vec<HOp>)> = vec![];
+    let mut items: Vec<(ColFam, String, Vec<HOp>)> = plan.extra_items.clone();
     for h in &hs {
         for (f, i) in &combos {
             // depth-3 histories only on the named families
